@@ -75,6 +75,13 @@ var c18Scenarios = []c18Scenario{
 	// two (three) labels extracted from the same JSON path, and from a path and its parent
 	{name: "json-same-path-2", n: 2, msg: c18JSONMsg, query: `{} | json a="req", b="req", c="req.id", d="req.id" | drop msg`, params: c18Log()},
 	{name: "json-same-path-count-2", n: 2, msg: c18JSONMsg, query: `sum by (a, b, c) (count_over_time({} | json a="code", b="code", c="req.path" [4s]))`, params: c18Range()},
+	// a label with an empty value in one stream and no such label in another: two label sets, in every arrival order
+	{name: "empty-value-3", n: 3, msg: func(i, j int) string {
+		return []string{"level= x=1", "x=1", "level=info x=1"}[i]
+	}, query: `sum by (level) (count_over_time({} | logfmt | drop msg [4s]))`, params: c18Range()},
+	{name: "empty-value-log-3", n: 3, msg: func(i, j int) string {
+		return []string{"level= x=1", "x=1", "level=info x=1"}[(i+j)%3]
+	}, query: `{} | logfmt | keep level`, params: c18Log()},
 	{name: "min-nan-3", n: 3, msg: c18NaNMsg, query: `min(sum_over_time({} | logfmt | drop msg | unwrap v [4s]))`, params: c18Range()},
 }
 
